@@ -744,7 +744,7 @@ def write_inputs(job, workdir):
             for p in job["grid_points"]:
                 fh.write(" ".join(repr(float(x)) for x in p) + "\n")
     if job.get("coord_text") is not None:
-        with open(os.path.join(workdir, "input.gro"), "w") as fh:
+        with open(os.path.join(workdir, "input." + job.get("coord_ext", "gro")), "w") as fh:
             fh.write(job["coord_text"])
 
 
@@ -771,7 +771,7 @@ def gen_coords_kwargs(job, workdir):
         if job.get("coord_kind") == "meta":
             kw["coordpath_meta"] = Path(workdir) / "input.gro"
         else:
-            kw["coordpath"] = Path(workdir) / "input.gro"
+            kw["coordpath"] = Path(workdir) / ("input." + job.get("coord_ext", "gro"))
     return kw
 
 
